@@ -671,8 +671,16 @@ impl Compiler {
             catch_target: 0, // Will be patched
         });
 
+        // The iterator handler occupies a slot on the VM's try stack while the body runs:
+        // loops nested in the body must record it in their try depth, otherwise their
+        // break/continue truncates it away and the PopIterTry below pops an enclosing handler.
+        self.try_depth += 1;
+
         // Compile body
-        self.compile_statement_impl(&for_of.body)?;
+        let body_result = self.compile_statement_impl(&for_of.body);
+
+        self.try_depth -= 1;
+        body_result?;
 
         // Pop iterator try handler (normal completion, no exception)
         self.builder.emit(Op::PopIterTry);
